@@ -306,6 +306,16 @@ def run(pid, tier, seed, res, only=None):
                 for p_ in ("C20", "C19"):
                     res.hit(p_, "monitor", "the composed DAG (inputs %s, outputs %s) returns %r; called inside another DAG's describing function: %r" % (in_ids, out_ids, st[1], sto), dict(base, kind="monitor", variant="nested-composed"))
             dist["nested_composed"] += 1
+        # ---- every node kept by compose() carries the attributes it has in the original
+        for nid_, xo_ in d.exec_nodes.items():
+            xc_ = cd.exec_nodes.get(nid_)
+            if xc_ is None or nid_ in in_ids or ">!>" in nid_:
+                continue
+            for attr_, props_ in (("is_sequential", ("C05",)), ("resource", ("C04",)), ("priority", ("C07",)), ("setup", ("C11",)), ("debug", ("C13",))):
+                if getattr(xc_, attr_) != getattr(xo_, attr_):
+                    for p_ in props_ + ("C19",):
+                        res.hit(p_, "monitor", "node %s has %s=%r in the original DAG and %s=%r in the DAG composed from it (inputs %s, outputs %s)" % (nid_, attr_, getattr(xo_, attr_), attr_, getattr(xc_, attr_), in_ids, out_ids), dict(base, kind="monitor"))
+                    break
         # ---- the original is unchanged by composing and by running the composed DAG
         ctl1 = tz.Ctl(free_run=True)
         after = tz.run_controlled(lambda: d(*args), ctl1)
